@@ -481,6 +481,14 @@ def methods(draw, u, it, name):
         else:
             ok = draw(st.one_of(st.just(["unit"]), output_types(u, mlt, inner=True), output_types(u, mlt, inner=True)))
         err = draw(st.one_of(st.just(["unit"]), output_types(u, mlt, inner=True)))
+        # a DiplomatOption<non-pointer> inside a Result arm
+        if p["option"] and p.get("result_opt", True) and p.get("dip_spelling", True) and rk == "result" and draw(st.integers(0, 5)) == 0:
+            inner_t = draw(st.one_of(prims(p).map(lambda x: ["prim", x]), st.sampled_from(u.enums).map(lambda e: ["enum", e["name"]]) if u.enums else prims(p).map(lambda x: ["prim", x])))
+            o_ = ["opt", inner_t, "dip"]       # (the std spelling is rejected there: the macro converts a top-level Option only)
+            if draw(st.booleans()):
+                ok = o_
+            else:
+                err = o_
         if p.get("err_custom_only") and err[0] not in ("unit", "enum", "struct", "box", "ref"):
             err = ["unit"]
         ret = ["result", ok, err, sp]
